@@ -401,3 +401,84 @@ def c13_completeness(xml, lines, tag="i0"):
     if not v and deq_names[:len(ev_names)] != ev_names[:len(deq_names)]:
         v.append(("C13.complete", "events dequeued %s but beforeProcessingEvent reported %s" % (deq_names[:10], ev_names[:10])))
     return v[:2]
+
+
+def c13_entry_account(xml, lines, tag="i0"):
+    """Every default entry is accounted for by a reported transition: when a compound state P and one of its children X are
+    entered in the same micro-step, then X is (an ancestor of) a target of a transition reported in that micro-step
+    (ordinary, <initial> or <history> default transition), or X was active at an earlier exit of P (restored from history),
+    or P has no <initial> element and X is its default child (initial attribute / first child in document order)."""
+    import gen
+    try:
+        root = gen.from_xml(xml)
+    except Exception:
+        return []
+    idx = root.index_by_xpath()
+    by_id = {e.attrs["id"]: e for e in root.walk() if e.tag in ("state", "parallel", "final", "history") and "id" in e.attrs
+             and not any(a.tag == "content" for a in gen._ancestors(e))}
+    last_children = {}
+    active = set()
+    in_ms = False
+    taken, entered, exited = [], [], []
+
+    def covers(x, names):
+        for n in names:
+            e = by_id.get(n)
+            while e is not None:
+                if e is x:
+                    return True
+                e = e.parent
+        return False
+
+    for r in lines:
+        if r[SESS] != tag:
+            continue
+        kd = r[KIND]
+        if kd == "bms":
+            in_ms = True
+            taken, entered, exited = [], [], []
+        elif kd == "btt" and in_ms:
+            taken.append(r[5])
+        elif kd == "bes" and in_ms:
+            entered.append(r[5])
+        elif kd == "bxs" and in_ms:
+            exited.append(r[5])
+        elif kd == "st" and r[5] in ("INITIALIZED", "EXC"):
+            active = set()
+            last_children = {}
+        elif kd == "ams" and in_ms:
+            in_ms = False
+            targets = []
+            for xp in taken:
+                for t in idx.get(xp, []):
+                    if t.tag == "transition":
+                        targets += t.attrs.get("target", "").split()
+            for pid in exited:
+                p = by_id.get(pid)
+                if p is not None and p.tag == "state":
+                    # (every child that was ever active at an exit of P: which exit a history remembers depends on where the
+                    # history sits and on whether its parent was in the exit set; the rule stays on the safe side)
+                    last_children.setdefault(pid, set()).update(c.attrs.get("id") for c in p.children if c.attrs.get("id") in active)
+            ent = set(entered)
+            for xid in entered:
+                x = by_id.get(xid)
+                if x is None or x.tag == "history" or x.parent is None or x.parent is root:
+                    continue
+                p = x.parent
+                if p.tag != "state" or p.attrs.get("id") not in ent:
+                    continue
+                if covers(x, targets) or xid in last_children.get(p.attrs["id"], ()):
+                    continue
+                if not any(c.tag == "initial" for c in p.children):
+                    if "initial" in p.attrs:
+                        if covers(x, p.attrs["initial"].split()):
+                            continue
+                    else:
+                        kids = [c for c in p.children if c.tag in ("state", "parallel", "final")]
+                        if kids and kids[0] is x:
+                            continue
+                return [("C13.complete", "micro-step ending at seq %d: state %s was entered together with its parent %s, but no reported transition (%s) targets it or a state below it, "
+                         "it was never active when %s was exited before, and it is not the parent's default child by initial attribute or document order" % (
+                             r[SEQ], xid, p.attrs["id"], taken, p.attrs["id"]))]
+            active = (active - set(exited)) | ent
+    return []
